@@ -17,6 +17,22 @@ Theorem C10_truncated :
 Proof. exact eval_expr_of. Qed.
 Print Assumptions C10_truncated.
 
+(** End to end at the engine level (Proofs/EndToEnd.v, StrBridge.v): the stream
+    the model of the layout engine emits under max_seq_len = n glues to the
+    tokens of an expression evaluating to the value with every container cut
+    to its first n elements - for every evaluable value, strings included, at
+    every width, ribbon and indent. *)
+From PP Require Import Sem Normalize Layout Render StrBridge EndToEnd.
+Theorem C10_engine_output_truncated :
+  forall (printable sp wd lb : N -> bool) (fuel ff : nat) (env : str -> option target),
+    env n_float = None -> env n_frozenset = None -> env n_set = None ->
+    forall (v : pyval) (indent width rw : Z) (n : Z) (sort : bool) (out : list sdoc),
+    (1 <= n)%Z -> wf_val v -> evaluable env v ->
+    sdocs_model printable sp wd lb fuel ff v indent width rw None n sort = Some out ->
+    exists e, Glue printable (rtoks (strip out) NNormal) (etoks e) /\ eval env e = Some (norm n sort v).
+Proof. exact engine_output_evaluates. Qed.
+Print Assumptions C10_engine_output_truncated.
+
 (** The notice: a sequence longer than max_seq_len is printed as its first
     max_seq_len element documents followed by ONE comment document with the
     text "...and K more elements", K = len - max_seq_len (joined with the
